@@ -183,9 +183,19 @@ def run(ctx):
     for e in sub.errors:
         ctx.error("shared C08 rules: " + e)
     for o in sub.obligations:
-        if o.rule == "C08.R3":
+        if o.rule in ("C08.R3", "C08.R2"):
             ctx.ob("C17.R6", o.where, o.ok, o.what, key=o.key, loc=o.loc, detail=o.detail)
-    ctx.floor("C17.R6", 12)
+    # the lazy classes record absolute offsets: the first one is the entry position, the others are built from position differences (shared with C16.R1/R2)
+    from . import C16
+    sub = Ctx("C16", ctx.tier, ctx.root, model=ctx.model)
+    sub._summ = summariser(ctx)
+    C16.run(sub)
+    for e in sub.errors:
+        ctx.error("shared C16 rules: " + e)
+    for o in sub.obligations:
+        if o.rule in ("C16.R1", "C16.R2"):
+            ctx.ob("C17.R6", o.where, o.ok, o.what, key=o.key, loc=o.loc, detail=o.detail)
+    ctx.floor("C17.R6", 12 + 12 + 14)
     # R7: no construct holds a stateful helper object between calls: an iterator, generator, stream or file created at construction time
     # (or lazily) and then consumed / written by parse or build carries its state from one call into the next
     def stateful(t):
